@@ -111,6 +111,8 @@ def run_property(prop, tier, seed, replay=None):
         for fl in flavours:
             io = [normalise(l, o) for l, o in zip(c.lines, per_case_impl[fl][ci])]
             fail = mod.oracle(c, io)
+            if not fail and hasattr(mod, "raw_check"):
+                fail = mod.raw_check(c, per_case_model[ci], per_case_impl[fl][ci])
             if fail:
                 oracle_failures.append((ci, fl, fail))
             if io != mo:
